@@ -22,7 +22,7 @@
     power-of-two frame rate. *)
 From Coq Require Import ZArith List Bool Reals.
 From Flocq Require Import Core.
-From NS Require Gen.TrF Proofs.TrEquivF18.
+From NS Require Gen.TrF Proofs.TrEquivF18 Proofs.TrCode18.
 From NS Require Import Base.FloatBridge Gen.G18 Model.FramesRoll
   Proofs.FramesRoll Proofs.FramesRollFloat Proofs.FramesRollGrid Proofs.FramesRollPaint Proofs.FramesRollRolls.
 Import ListNotations.
@@ -370,3 +370,17 @@ Theorem C18_source_frames_from_times : forall fps occ s e,
   NS.Gen.TrF.trf_frames_from_times fps occ s e = Some (frames_from_times fps occ s e).
 Proof. exact NS.Proofs.TrEquivF18.trf_frames_from_times_eq. Qed.
 Print Assumptions C18_source_frames_from_times.
+
+(** Two clauses stated DIRECTLY on the code as it reads now (Gen/TrF.v, re-translated from the source of the nested
+    frames_from_times on every run): every note fills at least one frame; its first frame is int(start*fps) or, only
+    with a positive minimum occupancy, the frame after it. *)
+Theorem C18_code_frames_at_least_one : forall fps occ s e a b,
+  NS.Gen.TrF.trf_frames_from_times fps occ s e = Some (a, b) -> a < b.
+Proof. exact NS.Proofs.TrCode18.code_frames_at_least_one. Qed.
+Print Assumptions C18_code_frames_at_least_one.
+
+Theorem C18_code_frames_start : forall fps occ s e a b,
+  NS.Gen.TrF.trf_frames_from_times fps occ s e = Some (a, b) ->
+  a = trunc (PrimFloat.mul s fps) \/ (a = trunc (PrimFloat.mul s fps) + 1 /\ PrimFloat.ltb PrimFloat.zero occ = true).
+Proof. exact NS.Proofs.TrCode18.code_frames_start. Qed.
+Print Assumptions C18_code_frames_start.
